@@ -28,6 +28,7 @@ ASSUMPTIONS = [
 ]
 DECIDING = ['bp.app.fragment:Fragment._reassemble', 'bp.agent:Agent.recv_bundle']
 REQUIRED_OBS = ['stack_reassemblies_checked', 'arrivals', 'deliveries_due', 'deliveries_seen', 'duplicates_injected', 'interleaved_histories', 'overlapping_sets', 'signed_histories', 'burst_histories', 'whole_adu_histories', 'damaged_copies_injected', 'replayed_histories', 'damaged_primary_copies_injected']
+RULE = RULE + " Whole-stack runs (vf.stack): three hosts X-Y-Z, each a real BP agent bound through bp/cla.py and the in-process bus to real UDPCL/TCPCL agents over the simulated network (datagrams reordered and duplicated, BP and UDPCL MTUs, 2-14 bundles with report requests per scenario); judged per node, conditional on what the node's adaptor popped and what the agent handed to the adaptor's sender; the stack_* counters say what was compared."
 
 NODE = 'dtn://me/'
 DEST = 'dtn://me/app'
